@@ -37,6 +37,10 @@ func (fr *frame) run(entry *State) {
 				alive = false
 				break
 			}
+			if st.reach == "false" {
+				alive = false
+				break
+			}
 		}
 		if alive {
 			fr.outSt[b] = st
